@@ -273,10 +273,10 @@ CLAIMED["C17"] = dict(
 
 CLAIMED["C01"] = dict(
     text="Lean theorems C01_core / C01_core_expr / C01_core_defined (Props/C01.lean): for the core fragment - Booleans and "
-         "integers of EVERY width, literals, variables, !, unary -, +, -, *, /, %, <<, >>, <, >, <=, >=, ==, !=, & | ^ on Booleans, "
+         "integers of EVERY width, literals, variables, !, unary -, +, -, *, /, %, <<, >>, <, >, <=, >=, ==, !=, & | ^ on Booleans and integers, "
          "&& and ||, "
          "`as` between all these types, if/else as expression and as statement, match on a Boolean or integer with literal, range "
-         "and binding patterns (last arm binding or `_`), blocks, (), let, let mut, assignment to a "
+         "and binding patterns (arms covering the type: last arm a binding or `_`, or exhaustive by the verified reference procedure of C08), blocks, (), let, let mut, assignment to a "
          "variable (also inside branches, match arms and short-circuit operands) - and for every program body, environment of well-typed "
          "values and fuel: if the source semantics (Model/SrcSem.lean) return a value, the bit-level evaluation Bit.bitStmts - "
          "which follows compile.rs construct by construct (both branches and all arms compiled, value, panic record and every variable "
@@ -285,7 +285,7 @@ CLAIMED["C01"] = dict(
          "failure (first failing operation); the source semantics are never stuck on such a program (type soundness). The "
          "proof rests on the all-width correctness of the adder, subtractor, comparator, equality, negation and cast circuits "
          "(Proofs/Arith*.lean, BitOps*.lean) and of the multiplier, divider, shifter and the repeated addition used for "
-         "positive literal factors. PARTIAL: the fragment excludes bitwise operators on integers, multiplication by a "
+         "positive literal factors. PARTIAL: the fragment excludes multiplication by a "
          "negative literal (where the recorded C03 finding lives), aggregates, match on aggregates and enums, loops, calls and assignment through "
          "accessors; for those, and for the step from Bit.bitStmts to "
          "real gates, the property is explored: generated programs (the generator builds the syntax tree itself) are compiled "
